@@ -123,7 +123,7 @@ def run(ctx):
     rnd = random.Random(ctx.seed)
     ctx.trusted += ["tools/translate/gen_elem.py + tools/harness/h_graph.py (ONNX graph -> fexpr)",
                     "coq/Ndx/ElemSem.v (element-wise operator semantics; point-wise: an output element depends on the operand elements at the same broadcast position only)"]
-    ctx.not_discharged += ["masking rule of reductions, sorting, matmul, where and layout functions on nullable input: correspondence runs with payload pairs only (no theorem yet)"]
+    ctx.not_discharged += ["masking rule of sorting, matmul, where, mean/var/std and layout functions on nullable input: correspondence runs with payload pairs only (sum/prod/min/max/all/any: theorem, tied to the source by T-src)"]
     ctx.static_build()
     specs, out, unsup = elem.gen_table(ctx)
     src = ("From Coq Require Import List Bool String.\nFrom ND Require Import Base.Dtype Ndx.ElemSyntax Ndx.ElemLaws Ndx.MaskRule.\nFrom G Require Import GenElem.\n"
@@ -143,6 +143,18 @@ def run(ctx):
     f = ctx.work / "C04_static.v"
     f.write_text((core.COQ / "Props" / "C04.v").read_text())
     ctx.compile("Props/C04.v: soundness of the decision procedure w.r.t. the evaluator; the rule on the model table", f, kind="theorem")
+
+    # ---- T-src: the null fill of every reduction, as the source reads now -----------------------------------
+    from translate import gen_src
+    try:
+        (ctx.work / "GenNullFill.v").write_text(gen_src.emit_null_fills(gen_src.null_fills()))
+        okg, _ = ctx.compile("T-src: GenNullFill.v (the statement `x = where(x.null, FILL, x.values)` of sum/prod/min/max/all/any extracted from _numericimpl.py) compiles", ctx.work / "GenNullFill.v")
+        t = ctx.work / "TieNullFill.v"
+        t.write_text((core.VERIF / "tools/templates/TieNullFill.v").read_text())
+        ctx.compile("C04_*_skips_nulls_as_written: the fills extracted from the source equal the model's (sum 0, prod 1, min type-max, max type-min, all True, any False); with them every reduction of a nullable array equals the reduction over the non-null values, for all values, masks and payloads", t, kind="theorem")
+    except gen_src.Untranslatable as e:
+        ctx.obligation("T-src: null handling of the reductions inside the translator's whitelist (`x = ndx.where(x.null, FILL, x.values)` under an isinstance guard, no other read of x.null / x.values)", False, str(e), "tie")
+    ctx.translator_inputs["ndonnx/_core/_numericimpl.py"] = core.sha256_file(core.REPO / "ndonnx/_core/_numericimpl.py")
 
     # ---- payload pairs (T-io) -----------------------------------------------------------------
     scale = 1 if ctx.tier == "quick" else 8
